@@ -68,13 +68,14 @@ class BlockGen:
         r = self.r
         k = r.random()
         p = self.profile
-        mem_w = {"mixed": 0.22, "mem": 0.6, "arith": 0.03, "stack": 0.05}[p]
-        stack_w = {"mixed": 0.15, "mem": 0.1, "arith": 0.1, "stack": 0.6}[p]
+        mem_w = {"mixed": 0.22, "mem": 0.6, "arith": 0.03, "stack": 0.05, "rules": 0.05}[p]
+        stack_w = {"mixed": 0.15, "mem": 0.1, "arith": 0.1, "stack": 0.6, "rules": 0.1}[p]
+        rule_w = 0.7 if p == "rules" else 0.25
         if k < mem_w:
             self.mem_snippet(out)
         elif k < mem_w + stack_w:
             self.stack_snippet(out)
-        elif k < mem_w + stack_w + 0.25:
+        elif k < mem_w + stack_w + rule_w:
             self.rule_snippet(out)
         else:
             self.arith_snippet(out)
